@@ -62,6 +62,10 @@ CHECKS = {
          "BFS over histories (length 5/7) of 22 snippets (definitions/uses, compile error, uncaught throws from top level, nested calls, a fiber, try/finally, a half-declared class, a built-in inside a method, clean try/finally and try/catch probes, suspended fiber resumed later, import and module mutation, reset) with canonical model state; each transition is the shortest history to its source state plus the snippet, run on one real Vm; per-snippet output and outcome must equal the model's; no panic.",
          "Counters bounded to keep the state space finite.",
          "5/C15"),
+ "C04": ("explicit-state reachability over the abstract (pc, operand-stack height) space of every compiled function (M-vm) + trace conformance + limit-sized program enumeration",
+         "For each of ~185k functions compiled from the repository scripts, core.yl and the C05/C06/C07/C08/C18 generator corpora, every abstract state (pc, height) is explored (39M states quick) including exceptional and finally-return edges, with the structural invariants of the property checked in every state and one height per pc; with the instruction-trace hook ~190k concretely executed (function, pc, height) points must lie in the abstract set; for every jump kind a body is sized (operand measured from the emitted code) so that the distance is 65534..65537, and every count limit (locals, captures, parameters, arguments, elements, interpolation parts, constants) is straddled: rejected with a compile error or exactly the expected output.",
+         "One open finding (KF-C04-01, finally entered at two heights) is attributed only when all of a function's issues vanish with exactly that abstract edge removed. Variable identity on every path is decided behaviourally by C05/C06.",
+         "5/C04"),
 }
 NOT_YET = "check not built yet in this revision of /verif (work in progress; see DESIGN.md section 10)"
 
